@@ -11,6 +11,7 @@
    `loads l` (ghost) = (write_cell at the load's first access, validated write_cell, returned bytes)
    of every completed load of that thread, newest first. *)
 From V Require Import model.Base model.Conc model.Events model.SeqLock proofs.SeqLockConc proofs.SeqLockProofs.
+From V Require model.Blackboard proofs.BlackboardProofs.
 From Coq Require Import Sorted.
 Open Scope N_scope.
 
@@ -164,3 +165,133 @@ Theorem c12_no_racy_read_partial : forall n v0 progs g ls t t' m v w i w0 w' buf
   w mod 2 <> (w' - 1) mod 2.
 Proof. exact sl_valid_read_no_conflict. Qed.
 Print Assumptions c12_no_racy_read_partial.
+
+(* ---------------- API level: writer port / per-key write handle uniqueness ----------------
+   model/Blackboard.v: sequential model of the blackboard registry as the public API drives it
+   (Writer::new / add_writer_id with max_writers = 1, Writer::entry -> acquire_producer,
+   drops, updates, loans, readers); `reach mr init h` = state after history h (any list of
+   operations) of a service with max_readers mr and entries init. *)
+Module BB.
+Import V.model.Blackboard V.proofs.BlackboardProofs.
+Local Open Scope nat_scope.
+
+(* at most one writer port exists at a time *)
+Theorem c12_bb_single_writer_port : forall mr init h, let s := reach mr init h in
+  nwriters s <= max_writers /\ live_writers s <= nwriters s.
+Proof. exact bb_single_writer_port. Qed.
+
+Theorem c12_bb_at_most_one_writer : forall mr init h, live_writers (reach mr init h) <= 1.
+Proof. exact bb_at_most_one_writer. Qed.
+
+(* at most one write handle per key *)
+Theorem c12_bb_single_handle_per_key : forall mr init h k, live_handles_on (reach mr init h) k <= 1.
+Proof. exact bb_single_handle_per_key. Qed.
+
+(* creating a second one fails without disturbing the first: a refused creation changes nothing,
+   and the holder's next update succeeds and is what every reader of that key gets *)
+Theorem c12_bb_failed_create_no_effect : forall s o,
+  is_create o = true -> is_failure (snd (step s o)) = true -> fst (step s o) = s.
+Proof. exact bb_failed_create_no_effect. Qed.
+
+Theorem c12_bb_first_holder_undisturbed : forall mr init h o hd hr v x xr, let s := reach mr init h in
+  is_create o = true -> is_failure (snd (step s o)) = true ->
+  nth_error (whs s) hd = Some hr -> h_st hr = HIdle ->
+  nth_error (rhs s) x = Some xr -> x_live xr = true -> x_k xr = h_k hr ->
+  let s1 := fst (step s o) in let s2 := fst (step s1 (UpdateWithCopy hd v)) in
+  s1 = s /\ snd (step s1 (UpdateWithCopy hd v)) = OOk /\ exists g, snd (step s2 (Get x)) = OValue v g.
+Proof. exact bb_first_holder_undisturbed. Qed.
+
+(* once the holder is gone, creation succeeds again (the writer slot is kept until the last
+   EntryHandleMut made by a dropped Writer is gone: Arc<WriterSharedState>) *)
+Theorem c12_bb_release_reenables : forall mr init h i w, let s := reach mr init h in
+  nth_error (writers s) i = Some w -> w_obj w = true -> live_handles_of s i = 0 ->
+  snd (step s (DropWriter i)) = OOk /\
+  snd (step (fst (step s (DropWriter i))) CreateWriter) = OId (length (writers s)).
+Proof. exact bb_release_reenables. Qed.
+
+Theorem c12_bb_writer_creatable_when_free : forall mr init h, let s := reach mr init h in
+  live_writers s = 0 -> live_handles s = 0 -> snd (step s CreateWriter) = OId (length (writers s)).
+Proof. exact bb_writer_creatable_when_free. Qed.
+
+Theorem c12_bb_release_reenables_handle : forall mr init h hd hr i w e, let s := reach mr init h in
+  nth_error (whs s) hd = Some hr -> h_live hr = true -> nth_error (writers s) i = Some w -> w_obj w = true ->
+  nth_error (entries s) (h_k hr) = Some e ->
+  snd (step s (DropHandleMut hd)) = OOk /\
+  snd (step (fst (step s (DropHandleMut hd))) (WriterEntry i (h_k hr) (e_ty e))) = OId (length (whs s)).
+Proof. exact bb_release_reenables_handle. Qed.
+
+(* every run of the concrete model is accepted by the reference specification (the oracle the
+   check runs on the implementation's own observations) *)
+Theorem c12_bb_refines_spec : forall mr init h,
+  sp_accepts (sp_new mr init) h (snd (run (bb_new mr init) h)) = true.
+Proof. exact bb_refines_spec. Qed.
+
+Theorem c12_bb_digest_ok : forall mr init h, let s := reach mr init h in
+  sp_digest_ok (abs s) (nwriters s) (nreaders s) = true.
+Proof. exact bb_digest_ok. Qed.
+
+Example c12_bb_single_writer_port_nonvacuous :
+  let s := reach 1 ex_init [CreateWriter] in
+  live_writers s = 1 /\ nwriters s = max_writers /\
+  snd (step s CreateWriter) = OWriterErr ExceedsMaxSupportedWriters.
+Proof. exact bb_single_writer_port_nonvacuous. Qed.
+
+Example c12_bb_single_handle_per_key_nonvacuous :
+  let s := reach 1 ex_init [CreateWriter; WriterEntry 0 0 0] in
+  live_handles_on s 0 = 1 /\ snd (step s (WriterEntry 0 0 0)) = OHandleMutErr HM_HandleAlreadyExists /\
+  snd (step s (WriterEntry 0 1 1)) = OId 1.
+Proof. exact bb_single_handle_per_key_nonvacuous. Qed.
+
+Example c12_bb_first_holder_undisturbed_nonvacuous :
+  let s := reach 1 ex_init [CreateWriter; WriterEntry 0 0 0; CreateReader; ReaderEntry 0 0 0] in
+  is_create CreateWriter = true /\ is_failure (snd (step s CreateWriter)) = true /\
+  (exists hr, nth_error (whs s) 0 = Some hr /\ h_st hr = HIdle /\
+   exists xr, nth_error (rhs s) 0 = Some xr /\ x_live xr = true /\ x_k xr = h_k hr) /\
+  snd (run s [CreateWriter; WriterEntry 0 0 0; UpdateWithCopy 0 77; Get 0]) =
+    [OWriterErr ExceedsMaxSupportedWriters; OHandleMutErr HM_HandleAlreadyExists; OOk; OValue 77 2].
+Proof. exact bb_first_holder_undisturbed_nonvacuous. Qed.
+
+Example c12_bb_release_reenables_nonvacuous :
+  let s := reach 1 ex_init [CreateWriter; CreateWriter] in
+  (exists w, nth_error (writers s) 0 = Some w /\ w_obj w = true) /\ live_handles_of s 0 = 0 /\
+  snd (run (bb_new 1 ex_init) [CreateWriter; CreateWriter; DropWriter 0; CreateWriter]) =
+    [OId 0; OWriterErr ExceedsMaxSupportedWriters; OOk; OId 1].
+Proof. exact bb_release_reenables_nonvacuous. Qed.
+
+Example c12_bb_release_reenables_needs_no_handle :
+  snd (run (bb_new 1 ex_init) [CreateWriter; WriterEntry 0 0 0; DropWriter 0; CreateWriter; UpdateWithCopy 0 5;
+                               DropHandleMut 0; CreateWriter]) =
+    [OId 0; OId 0; OOk; OWriterErr ExceedsMaxSupportedWriters; OOk; OOk; OId 1].
+Proof. exact bb_release_reenables_needs_no_handle. Qed.
+
+Example c12_bb_writer_creatable_when_free_nonvacuous :
+  let s := reach 1 ex_init [CreateWriter; WriterEntry 0 1 1; DropWriter 0; DropHandleMut 0] in
+  live_writers s = 0 /\ live_handles s = 0 /\ snd (step s CreateWriter) = OId 1.
+Proof. exact bb_writer_creatable_when_free_nonvacuous. Qed.
+
+Example c12_bb_release_reenables_handle_nonvacuous :
+  let s := reach 1 ex_init [CreateWriter; WriterEntry 0 1 1; LoanUninit 0] in
+  (exists hr, nth_error (whs s) 0 = Some hr /\ h_live hr = true /\ h_k hr = 1 /\
+   exists e, nth_error (entries s) 1 = Some e /\ e_ty e = 1%N) /\
+  (exists w, nth_error (writers s) 0 = Some w /\ w_obj w = true) /\
+  snd (run s [WriterEntry 0 1 1; DropHandleMut 0; WriterEntry 0 1 1]) =
+    [OHandleMutErr HM_HandleAlreadyExists; OOk; OId 1].
+Proof. exact bb_release_reenables_handle_nonvacuous. Qed.
+End BB.
+Print Assumptions BB.c12_bb_single_writer_port.
+Print Assumptions BB.c12_bb_at_most_one_writer.
+Print Assumptions BB.c12_bb_single_handle_per_key.
+Print Assumptions BB.c12_bb_failed_create_no_effect.
+Print Assumptions BB.c12_bb_first_holder_undisturbed.
+Print Assumptions BB.c12_bb_release_reenables.
+Print Assumptions BB.c12_bb_writer_creatable_when_free.
+Print Assumptions BB.c12_bb_release_reenables_handle.
+Print Assumptions BB.c12_bb_refines_spec.
+Print Assumptions BB.c12_bb_digest_ok.
+Print Assumptions BB.c12_bb_single_writer_port_nonvacuous.
+Print Assumptions BB.c12_bb_single_handle_per_key_nonvacuous.
+Print Assumptions BB.c12_bb_first_holder_undisturbed_nonvacuous.
+Print Assumptions BB.c12_bb_release_reenables_nonvacuous.
+Print Assumptions BB.c12_bb_release_reenables_needs_no_handle.
+Print Assumptions BB.c12_bb_writer_creatable_when_free_nonvacuous.
+Print Assumptions BB.c12_bb_release_reenables_handle_nonvacuous.
